@@ -672,7 +672,7 @@ Proof.
 Qed.
 
 Lemma exec_member_basic d args : basic d (exec_member d args).
-Proof. unfold exec_member. same. Qed.
+Proof. unfold exec_member. destruct args as [|a [|b [|c r]]]; same. Qed.
 
 Lemma sets_dispatch_basic d now nowms n args hint res :
   sets_dispatch d now nowms n args hint = Some res -> basic d res.
@@ -1232,6 +1232,167 @@ Proof.
       { destruct ms as [|x ms]; [reflexivity|]. destruct s; [destruct (A1 x (or_introl eq_refl))|].
         unfold zlength in Z0. cbn in Z0. lia. }
       subst ms. unfold zlength in A2. cbn in A2. lia.
+Qed.
+
+(* ---- what the deadline / footprint proofs of Mem/TtlProofs.v need from this family ----
+   Every set executor reaches the database through db_get (via [get_set]) and writes it through
+   db_set / db_del (via [put_set], [store_set]) on keys taken from its arguments.  The only
+   place where the database is read inside a Fixpoint is [operands] (SUNION/SINTER/SDIFF and
+   their STORE forms); the lemmas below are the induction that the generic tactics cannot do. *)
+Lemma get_set_ext a b k : db_get a k = db_get b k -> get_set a k = get_set b k.
+Proof. unfold get_set. intros ->. reflexivity. Qed.
+
+(* the operand collection depends only on what the listed keys hold *)
+Lemma operands_ext a b ks :
+  (forall k, In k ks -> db_get a k = db_get b k) -> operands a ks = operands b ks.
+Proof.
+  induction ks as [|k ks IH]; intros H; cbn; [reflexivity|].
+  rewrite (get_set_ext a b k (H k (or_introl eq_refl))).
+  rewrite IH by (intros k' Hk'; apply H; right; exact Hk'). reflexivity.
+Qed.
+
+Lemma store_set_cases d k s :
+  store_set d k s = match s with [] => db_del d k | _ => db_set (db_del d k) k (VSet s) end.
+Proof. reflexivity. Qed.
+
+Lemma db_get_store_set d k s k' :
+  db_get (store_set d k s) k' =
+  if bytes_eqb k' k then match s with [] => None | _ => Some (VSet s) end else db_get d k'.
+Proof.
+  destruct s; cbn [store_set]; rewrite ?db_get_set, db_get_del; destruct (bytes_eqb k' k); reflexivity.
+Qed.
+
+(* the *STORE forms are the only set commands that touch a deadline: the destination loses its *)
+Lemma db_ttl_store_set d k s k' :
+  db_ttl (store_set d k s) k' = if bytes_eqb k' k then None else db_ttl d k'.
+Proof. destruct s; cbn [store_set]; rewrite ?db_ttl_set, db_ttl_del; reflexivity. Qed.
+
+(* SUNION/SINTER/SDIFF: the reply depends only on what the argument keys hold; no write *)
+Lemma exec_algebra_snd op d args : snd (exec_algebra op d args) = d.
+Proof.
+  unfold exec_algebra. destruct args as [|c [|k ks]]; try reflexivity.
+  destruct (operands d (k :: ks)); reflexivity.
+Qed.
+
+Lemma exec_algebra_ext op a b args :
+  (forall k, In k (tl args) -> db_get a k = db_get b k) ->
+  fst (exec_algebra op a args) = fst (exec_algebra op b args).
+Proof.
+  intros H. unfold exec_algebra. destruct args as [|c [|k ks]]; try reflexivity.
+  rewrite (operands_ext a b (k :: ks) H). destruct (operands b (k :: ks)); reflexivity.
+Qed.
+
+(* the STORE forms: same reply on databases that agree on the operand keys, and the only write
+   is [store_set] on the destination -- the second argument -- with the same result *)
+Lemma exec_algebra_store_ext op a b args :
+  (forall k, In k (tl args) -> db_get a k = db_get b k) ->
+  fst (exec_algebra_store op a args) = fst (exec_algebra_store op b args) /\
+  ((snd (exec_algebra_store op a args) = a /\ snd (exec_algebra_store op b args) = b) \/
+   exists dst r, In dst (tl args) /\
+     snd (exec_algebra_store op a args) = store_set a dst r /\
+     snd (exec_algebra_store op b args) = store_set b dst r).
+Proof.
+  intros H. unfold exec_algebra_store.
+  destruct args as [|c [|dst [|k ks]]]; try (split; [reflexivity|left; split; reflexivity]).
+  assert (E : operands a (k :: ks) = operands b (k :: ks)).
+  { apply operands_ext. intros k' Hk'. apply H. right. exact Hk'. }
+  rewrite E. destruct (operands b (k :: ks)) as [ss|]; [|split; [reflexivity|left; split; reflexivity]].
+  split; [reflexivity|]. right. exists dst, (op ss). split; [left; reflexivity|split; reflexivity].
+Qed.
+
+Lemma exec_algebra_store_snd op d args :
+  snd (exec_algebra_store op d args) = d \/
+  exists dst r, In dst (tl args) /\ snd (exec_algebra_store op d args) = store_set d dst r.
+Proof.
+  destruct (exec_algebra_store_ext op d d args (fun _ _ => eq_refl)) as [_ [[E _]|(dst & r & I & E & _)]];
+    [left; exact E|right; exists dst, r; split; assumption].
+Qed.
+
+(* the eleven other commands never touch a deadline of a key that is still there *)
+Definition sets_store_names : list bytes := [B "sunionstore"; B "sinterstore"; B "sdiffstore"].
+
+(* [keeps d d']: every key still present in d' has the deadline it had in d (this is
+   TtlProofs.ttl_keep, restated here so that this file does not depend on TtlProofs.v) *)
+Definition keeps (d d' : db) : Prop := forall k, db_get d' k = None \/ db_ttl d' k = db_ttl d k.
+
+Lemma keeps_refl d : keeps d d.
+Proof. intros k. right. reflexivity. Qed.
+Lemma keeps_set d k v : keeps d (db_set d k v).
+Proof. intros k0. right. apply db_ttl_set. Qed.
+Lemma keeps_del_after d d1 k : keeps d d1 -> keeps d (db_del d1 k).
+Proof.
+  intros H k0. rewrite db_get_del, db_ttl_del. destruct (bytes_eqb k0 k); [left; reflexivity|apply H].
+Qed.
+Lemma keeps_put d k s : keeps d (put_set d k s).
+Proof. destruct s; cbn [put_set]; [apply keeps_del_after, keeps_refl|apply keeps_set]. Qed.
+Lemma keeps_set_after d d1 k v : keeps d d1 -> db_ttl d1 k = db_ttl d k -> keeps d (db_set d1 k v).
+Proof.
+  intros H E k0. rewrite db_get_set, db_ttl_set. destruct (bytes_eqb_spec k0 k) as [->|N].
+  - right. exact E.
+  - apply H.
+Qed.
+
+Lemma db_ttl_put_other d k s k' : k' <> k -> db_ttl (put_set d k s) k' = db_ttl d k'.
+Proof.
+  intros N. destruct s; cbn [put_set]; [|reflexivity]. rewrite db_ttl_del.
+  destruct (bytes_eqb_spec k' k); [contradiction|reflexivity].
+Qed.
+
+Lemma exec_smove_keeps d args : keeps d (snd (exec_smove d args)).
+Proof.
+  unfold exec_smove. destruct args as [|c [|src [|dst [|m [|x r]]]]]; try apply keeps_refl.
+  destruct (get_set d src); try apply keeps_refl.
+  assert (G : forall t, bytes_eqb src dst = false ->
+              keeps d (db_set (put_set d src (srem s m)) dst (VSet (sadd t m)))).
+  { intros t N. apply keeps_set_after; [apply keeps_put|]. apply db_ttl_put_other.
+    intros E. subst dst. rewrite bytes_eqb_refl in N. discriminate. }
+  destruct (get_set d dst); try apply keeps_refl;
+    (destruct (negb (smem m s)); [apply keeps_refl|]);
+    (destruct (bytes_eqb src dst) eqn:N; [apply keeps_refl|]); cbn [snd]; apply G; reflexivity.
+Qed.
+
+(* every set command except the three STORE forms leaves the deadlines alone *)
+Theorem sets_dispatch_keeps d now nowms n args hint r d' :
+  existsb (bytes_eqb n) sets_store_names = false ->
+  sets_dispatch d now nowms n args hint = Some (r, d') -> keeps d d'.
+Proof.
+  intros C. unfold sets_dispatch.
+  repeat match goal with
+  | |- context [if is n ?c then _ else _] =>
+    let Q := fresh "Q" in
+    destruct (is n c) eqn:Q; [apply bytes_eqb_eq in Q; subst n; try discriminate C|clear Q]
+  end; intros E; try discriminate; injection E as E;
+  apply (f_equal snd) in E; cbn [snd] in E; subst d'.
+  - unfold exec_sadd. destruct args as [|c [|k [|m ms]]]; try apply keeps_refl.
+    destruct (get_set d k); cbn [snd]; first [apply keeps_refl|apply keeps_set].
+  - unfold exec_srem. destruct args as [|c [|k [|m ms]]]; try apply keeps_refl.
+    destruct (get_set d k); cbn [snd]; first [apply keeps_refl|apply keeps_put].
+  - unfold exec_sismember. destruct args as [|c [|k [|m [|x r0]]]]; try apply keeps_refl.
+    destruct (get_set d k); apply keeps_refl.
+  - unfold exec_scard. destruct args as [|c [|k [|x r0]]]; try apply keeps_refl.
+    destruct (get_set d k); apply keeps_refl.
+  - unfold exec_smembers. destruct args as [|c [|k [|x r0]]]; try apply keeps_refl.
+    destruct (get_set d k); apply keeps_refl.
+  - apply exec_smove_keeps.
+  - unfold exec_spop. destruct args as [|c [|k [|cnt [|x r0]]]]; try apply keeps_refl.
+    + destruct (get_set d k); try apply keeps_refl.
+      destruct (choose_one s hint); cbn [snd]; first [apply keeps_refl|apply keeps_put].
+    + destruct (atoi64 cnt) as [z|]; try apply keeps_refl. destruct (z <? 0); try apply keeps_refl.
+      destruct (get_set d k); cbn [snd]; first [apply keeps_refl|apply keeps_put].
+  - assert (X : snd (exec_srandmember d args hint) = d).
+    { pose proof (exec_srandmember_basic d args hint) as (_ & _ & _).
+      unfold exec_srandmember. destruct args as [|c [|k [|cnt [|x r0]]]]; try reflexivity.
+      - destruct (get_set d k); try reflexivity. destruct (choose_one s hint); reflexivity.
+      - destruct (atoi64 cnt) as [z|]; try reflexivity.
+        destruct ((z <? - max_random_repeat) && refused hint); try reflexivity.
+        destruct (get_set d k); try reflexivity. destruct (z >=? 0); try reflexivity.
+        destruct (z <? - max_random_repeat); try reflexivity.
+        destruct (accept_repeated s (- z) hint); reflexivity. }
+    rewrite X. apply keeps_refl.
+  - rewrite exec_algebra_snd. apply keeps_refl.
+  - rewrite exec_algebra_snd. apply keeps_refl.
+  - rewrite exec_algebra_snd. apply keeps_refl.
+  - unfold exec_member. destruct args as [|a0 [|b0 [|c0 r0]]]; apply keeps_refl.
 Qed.
 
 (* ================================================================== E. the same, for any database and clock
